@@ -5,17 +5,17 @@ CONSTANTS
   Check = {"C04", "C05", "C06"}
   Own = "own"
   Router = "router"
-  Clients = {"m1", "m2", "m3", "m4", "m5", "m6"}
+  Clients = {"m1", "m2", "m3", "m4", "m5", "m6", "m7", "m8", "m9", "m10", "m11", "m12", "m13", "m14", "m15", "m16", "m17", "m18", "m19", "m20"}
   HostIP = "hostip"
   RouterIP = "routerip"
   LanIPs = {"a1", "a2", "a3", "a4", "a5", "a6", "a7", "a8", "a9", "a10", "a11", "a12", "a13", "a14", "a15", "a16", "a17", "a18", "a19", "a20"}
   ExtIPs = {"x1", "x2", "x3"}
   LLAs = {"l1", "l2", "l3", "l4"}
-  GUAs = {"g1", "g2", "g3", "g4"}
+  GUAs = {"g1", "g2", "g3", "g4", "q1", "q2", "q3", "q4", "q5", "q6"}
   Slots = {"dhcp", "mdns", "ssdp", "llmnr", "nbns"}
   Dhcp = "dhcp"
   Llmnr = "llmnr"
-  Names = {"n1", "n2", "n3"}
+  Names = {"n1", "n2", "n3", "n1u", "n2u"}
   NoIP = "noip"
   NoName = "noname"
   ProbeD = 1
